@@ -43,7 +43,9 @@ func (m *PositionMapper) LSPToByte(pos protocol.Position) int {
 		return len(m.content)
 	}
 	byteOffset := m.lineStarts[line]
-	byteOffset += UTF16OffsetToByteOffset(m.lines[line], int(pos.Character))
+	// A trailing CR belongs to the CRLF line terminator, not to the line's content:
+	// characters past the end of the line clamp to the position before it.
+	byteOffset += UTF16OffsetToByteOffset(strings.TrimSuffix(m.lines[line], "\r"), int(pos.Character))
 	return byteOffset
 }
 
